@@ -40,6 +40,7 @@ func init() {
 		mutation{"state-gate-dropped", "chord/local_kv.go", "		if state != chord.Active {\n			l.Debug(", "		if state == chord.Inactive {\n			l.Debug(", "kv-gate"},
 		mutation{"gate-refusal-nonretryable", "chord/local_kv.go", "			n.kvStaleCount.Inc()\n			return zeroV, chord.ErrKVStaleOwnership\n		}\n\n		if n.surrogate != nil {", "			n.kvStaleCount.Inc()\n			return zeroV, chord.ErrNodeGone\n		}\n\n		if n.surrogate != nil {", "gate-refusal"},
 		mutation{"unlock-before-handler", "chord/local_kv.go", "		n.predecessorMu.RLock()\n		defer n.predecessorMu.RUnlock()\n\n		if n.predecessor != nil {\n			l = l.With", "		n.predecessorMu.RLock()\n		n.predecessorMu.RUnlock()\n\n		if n.predecessor != nil {\n			l = l.With", "kv-gate"},
+		mutation{"getter-under-own-lock", "chord/local_tasks.go", "		n.predecessorMu.Lock()\n		if n.predecessor == pre {", "		n.predecessorMu.Lock()\n		if n.getPredecessor() == pre {", "no-reentrant-lock"},
 		mutation{"surrogate-forward-under-read-locks", "chord/local_kv.go", "			forward = n.surrogate\n			return zeroV, nil", "			return handler(ctx, n.surrogate, targetSurrogate, id)", "forward-unlocked"},
 		mutation{"sibling-wrong-method", "chord/local_kv.go", "			return nil, kv.PrefixRemove(ctx, prefix, child)", "			return nil, kv.PrefixAppend(ctx, prefix, child)", "kv-sibling"},
 		mutation{"sibling-wrong-key", "chord/local_kv.go", "	return kvMiddleware(ctx, n, prefix,\n		func(ctx context.Context, kv chord.KV, target kvTargetType, id uint64) (bool, error) {", "	return kvMiddleware(ctx, n, child,\n		func(ctx context.Context, kv chord.KV, target kvTargetType, id uint64) (bool, error) {", "kv-sibling"},
@@ -325,6 +326,7 @@ func runC03(c *Ctx) {
 
 func runC04(c *Ctx) {
 	snapshotCASRule(c)
+	noReentrantLockRule(c)
 	uses := 0
 	stateActive := func(g *Fn, fs *FactSet) bool {
 		return fs.Cmp(func(e, tag ast.Expr, truth bool, fa *Fact) bool {
@@ -995,4 +997,85 @@ func finishRelease(name string) effPred {
 		b, _ := g.ConstVal(call.Args[1])
 		return b != "false"
 	}
+}
+
+// lockAcquisitions lists the mutex fields fn locks, itself or through statically resolved
+// callees (depth 4), as "fieldKey:Lock|RLock".
+func lockAcquisitions(c *Ctx, fn *Fn, depth int, seen map[string]bool) map[string]bool {
+	out := map[string]bool{}
+	if fn == nil || depth > 4 || seen[fn.Name] {
+		return out
+	}
+	seen[fn.Name] = true
+	for _, call := range fn.Calls(true, func(call *ast.CallExpr) bool { return true }) {
+		g := fn.enclosing(call)
+		if se, ok := ast.Unparen(call.Fun).(*ast.SelectorExpr); ok && (se.Sel.Name == "Lock" || se.Sel.Name == "RLock") {
+			if k := g.FieldKey(se.X); k != "" {
+				out[k+":"+se.Sel.Name] = true
+			}
+		}
+		if o := g.Callee(call); o != nil {
+			if cf := c.FnOfObj(o); cf != nil {
+				for k := range lockAcquisitions(c, cf, depth+1, seen) {
+					out[k] = true
+				}
+			}
+		}
+	}
+	return out
+}
+
+// noReentrantLockRule: sync.Mutex and sync.RWMutex are not reentrant (a second RLock
+// queues behind a waiting writer). No function of package chord calls, while holding one
+// of the node's mutexes, a function that acquires the same mutex field of the same
+// receiver again.
+func noReentrantLockRule(c *Ctx) {
+	sites := 0
+	for _, fn := range c.AllFuncs("chord") {
+		for _, call := range fn.Calls(true, func(call *ast.CallExpr) bool { return true }) {
+			g := fn.enclosing(call)
+			o := g.Callee(call)
+			if o == nil {
+				continue
+			}
+			cf := c.FnOfObj(o)
+			if cf == nil || cf.Decl == nil || cf.Decl.Recv == nil {
+				continue
+			}
+			se, ok := ast.Unparen(call.Fun).(*ast.SelectorExpr)
+			if !ok {
+				continue
+			}
+			var held []*Fact
+			for _, fa := range g.FactsAt(call).Facts {
+				if fa.Kind == FHeld && !fa.Sem {
+					held = append(held, fa)
+				}
+			}
+			if len(held) == 0 {
+				continue
+			}
+			sites++
+			base := types.ExprString(se.X)
+			acq := lockAcquisitions(c, cf, 0, map[string]bool{})
+			var again []string
+			for _, h := range held {
+				i := strings.LastIndex(h.Lock, ".")
+				if i < 0 || h.Lock[:i] != base {
+					continue // a lock of another object
+				}
+				for k := range acq {
+					if strings.HasSuffix(strings.Split(k, ":")[0], "."+h.Lock[i+1:]) {
+						again = append(again, fmt.Sprintf("%s held(%c), callee takes %s", h.Lock, h.Mode, k))
+					}
+				}
+			}
+			sort.Strings(again)
+			if len(again) > 0 {
+				c.Ob("no-reentrant-lock", strings.TrimPrefix(fn.Name, "chord.")+"#"+g.Str(call.Fun), call.Pos(), false, "the callee acquires a mutex the caller already holds on the same receiver: "+strings.Join(again, "; "))
+			}
+		}
+	}
+	c.Ob("no-reentrant-lock", "chord#calls-under-a-held-node-mutex", 0, true, fmt.Sprintf("%d method calls made under a held mutex were followed through statically resolved callees (depth 4); none re-acquires a held mutex", sites))
+	c.Floor("method calls under a held mutex (package chord)", sites, 10)
 }
